@@ -356,7 +356,7 @@ def run_behaviour(ctx, helper, C16, only=None):
     cases, kinds, tr = enumerate_cases(ctx)
     if only:
         cases = [c for c in cases if c["shape"] == only["shape"]]
-    elif ctx.quick:
+    elif ctx.quick or os.environ.get("C16_CAP"):
         # all statement shapes and a seeded third of the large boolean families
         big = [c for c in cases if c["shape"].startswith(("qf1001", "s1002", "s1003"))]
         rest = [c for c in cases if c not in big]
